@@ -190,8 +190,13 @@ def run(ctx):
             and v[3][3] == T.const('to_list')
         ob.require(ok, 'by_path(path) is master.derive_path(Bip32Path.parse(path).to_list())', fbp.where,
                    found=T.show(v, maxdepth=5))
+    check_fold(ctx, 'C17.FOLD')
+
+
+def check_fold(ctx, rule):
+    p = ctx.p
     fdp = p.get_function('bip32.PubKeyNode.derive_path')
-    with ctx.obligation('C17.FOLD', 'PubKeyNode.derive_path', None, fdp.where) as ob:
+    with ctx.obligation(rule, 'PubKeyNode.derive_path', None, fdp.where) as ob:
         summ = dict(X.DEFAULT_SUMMARIES)
         for q in ('bip32.PubKeyNode.ckd', 'bip32.PrvKeyNode.ckd'):
             summ[q] = lambda ev_, fi, env, facts: (_ckd(env[fi.params[0]], env[fi.params[1]]), facts)
